@@ -125,7 +125,7 @@ def afterAlign (al : Bool) (fa : Nat) (o : Option Nat) (st : VSt) : VSt :=
   match o with
   | some oo => { st with spos := some oo, lastAlign := none }
   | none =>
-    if al = true ∧ fa ≠ 1 then { st with spos := st.spos.map (fun k => k + padNat k fa), lastAlign := some fa } else st
+    if al = true ∧ fa ≠ 1 then { st with spos := none, lastAlign := some fa } else st
 
 theorem posOK_afterAlign (al : Bool) (fa : Nat) (o : Option Nat) (st : VSt) (hla : st.lastAlign = none) :
     posOK al (afterAlign al fa o st) o fa = true := by
@@ -184,26 +184,39 @@ theorem align_step (cfg : Cfg) (al : Bool) (salign : Nat) (name : String) (an : 
       · rw [if_pos h1, if_neg (by simp [h1])]
       · rw [if_neg h1, if_pos h1]
         simp only [Bool.not_true, Bool.false_eq_true, if_false]
-        cases hs : st.spos with
-        | none => simp
-        | some k =>
-          have hmod : salign % ty.alignment cfg = 0 := Nat.mod_eq_zero_of_dvd hdvd
-          simp [hmod, isPow2b_of_IsP2 hp2]
 
 /-! ### the sub-read and the bit read -/
 
-/-- the static position after a sub-read: known only if the member has a layout offset and a static size -/
-def subSpos (o sp z : Option Nat) : Option Nat :=
+/-- the static position after a sub-read: known only if the member has a layout offset and a static size and contains
+    no structure -/
+def subSpos (rs : Bool) (o sp z : Option Nat) : Option Nat :=
   match o, sp, z with
-  | some _, some k, some z => some (k + z)
+  | some _, some k, some z => if rs = true then none else some (k + z)
   | _, _, _ => none
+
+theorem readsStruct_elementType : ∀ t : Ty, readsStruct t = isStructTy (elementType t)
+  | .sc _ _ => rfl
+  | .enum _ _ _ => rfl
+  | .ptr _ => rfl
+  | .struct _ _ => rfl
+  | .union _ _ => rfl
+  | .arr e _ => by rw [readsStruct, elementType]; exact readsStruct_elementType e
+
+theorem readsStruct_eq (ty : Ty) : readsStruct ty = isStructTy (elementType (fieldType ty)) := by
+  cases ty with
+  | enum b a f => rfl
+  | sc s a => rfl
+  | ptr t => rfl
+  | struct al fs => rfl
+  | union al fs => rfl
+  | arr e l => exact readsStruct_elementType _
 
 theorem sub_instr (cfg : Cfg) (al : Bool) (salign : Nat) (name : String) (an : Bool) (ty : Ty) (rest : Fields)
     (o : Option Nat) (offs' : List (Option Nat)) (st : VSt) (p : Plan)
     (hnv : isVoid ty = false) (hd : st.dirty = false) (hpos : posOK al st o (ty.alignment cfg) = true) :
     planOKAux cfg al salign (.sub name :: p) (.cons name an ty none rest) (o :: offs') st =
       planOKAux cfg al salign p rest offs'
-        { spos := subSpos o st.spos (ty.size cfg), lastAlign := none, unit := none, dirty := false } := by
+        { spos := subSpos (readsStruct ty) o st.spos (ty.size cfg), lastAlign := none, unit := none, dirty := false } := by
   rw [planOKAux, dropVoids_nonvoid _ _ _ _ _ _ _ _ _ (by simp [hnv])]
   simp only [hdOff, hd, hpos, beq_self_eq_true, Bool.not_false, Bool.and_self, Bool.true_and, List.drop_one,
     List.tail_cons]
